@@ -45,7 +45,7 @@ def local_defs(fn):
                             v = s.value.elts[i] if isinstance(s.value, (ast.Tuple, ast.List)) and \
                                 len(s.value.elts) == len(t.elts) else s.value
                             defs.setdefault(el.id, []).append(v)
-        elif isinstance(s, ast.For):
+        elif isinstance(s, (ast.For, ast.comprehension)):   # loop statements and comprehension generators alike
             names = [n for n in ast.walk(s.target) if isinstance(n, ast.Name)]
             it = s.iter
             if isinstance(it, ast.Call) and norm(it.func) == "zip" and isinstance(s.target, ast.Tuple) and \
@@ -476,7 +476,21 @@ def rule_r5(rep, repo):
         f = repo.method("MolGrid", cname)
         loops = [s for s in strip_docstring(f.node.body) if isinstance(s, ast.For)]
         if not loops:
-            raise AnalysisError(f"unrecognised idiom: MolGrid.{cname} has no per-atom loop")
+            # the atomic grids may be built by a comprehension: its element expression cannot assign
+            # names (other than through `:=`), so nothing is carried from one atom to the next
+            comps = [c for c in ast.walk(f.node) if isinstance(c, (ast.ListComp, ast.GeneratorExp))
+                     and any(isinstance(x, ast.Call) and norm(x.func).split(".")[0] == "AtomGrid" for x in ast.walk(c.elt))]
+            if not comps:
+                raise AnalysisError(f"unrecognised idiom: MolGrid.{cname} has no per-atom loop or comprehension")
+            walrus = [x for c in comps for x in ast.walk(c) if isinstance(x, ast.NamedExpr)]
+            if walrus:
+                rep.violation("R5.no-loop-carried-per-atom-state", f.qual, norm(walrus[0].target),
+                              f"`{norm(walrus[0])[:70]}` assigns a name inside the per-atom comprehension: the value computed "
+                              f"for one atom can be reused for the following atoms", repo.rel("molgrid", walrus[0]))
+            else:
+                rep.ok("R5.no-loop-carried-per-atom-state", f"MolGrid.{cname}", repo.rel("molgrid", comps[0]),
+                       "the atomic grids are built by a comprehension without assignment expressions")
+            continue
         loop = loops[-1]
         targets = {n.id for n in ast.walk(loop.target) if isinstance(n, ast.Name)}
         carried = _upward_exposed_assigned(loop.body, set(targets))
